@@ -2,6 +2,7 @@ package simdrv
 
 import (
 	"fmt"
+	"os"
 	"sort"
 	"strconv"
 	"strings"
@@ -165,6 +166,15 @@ func (w *Worker) genWorkload(r *simrt.Rand, pkgs []string, allowAll bool) *Workl
 			}
 		}
 	}
+	// the dynamic-rules checker with user rule files (several files whose rules
+	// overlap on the same nodes and depend on package, scope, file, type and size)
+	if r.Intn(3) == 0 {
+		if !wl.EnableAll && !set["ruleguard"] {
+			wl.Checkers = append(wl.Checkers, "ruleguard")
+			sort.Strings(wl.Checkers)
+		}
+		wl.Params["ruleguard"] = map[string]any{"rules": rulesGlob()}
+	}
 	n := len(wl.Checkers)
 	concs := []int{1, 2, 3, n/2 + 1, n, 2 * n, 16}
 	wl.Concurrency = concs[r.Intn(len(concs))]
@@ -272,4 +282,12 @@ func diagsOfVisit(out *CLIOutcome, i int, pkg string) (ds []Diag, other []string
 		}
 	}
 	return
+}
+
+// rulesGlob is the pattern of the hand-written user rule files.
+func rulesGlob() string {
+	if d := os.Getenv("GCSIM_RULES"); d != "" {
+		return d
+	}
+	return "/verif/sim/rules/probe_*.go"
 }
